@@ -9,6 +9,10 @@ same; the intersection test (c05_util.IdCheck: abstract evaluation of the collec
 empty/duplicates/intersects atoms) filters by object identity, rejects duplicates inside the argument and compares ids exactly;
 lookup (next(..) / search loop / recursive depth-first helper) and enumeration shapes; a memoised all_children whose
 invalidation misses a child-list change or does not reach the WBS root task.  Relies on C01 for the forest invariant.
+Round 4: the parent setter rejects the task itself / a descendant / a dependency-linked parent before any relation or owner
+write and never raises after one (shared with C11); the child list object is shared with every facade (own alias-aware copy of the
+shared-list rule in c05_util); all_children order decided for recursive generators / accumulators (nested, static, method) and for
+explicit work lists (which end is popped, which end and in which order the children are pushed).
 Not decided: a memoised all_children whose invalidation looks complete (UNDECIDED); id tests written with running `picked`
 sets or other idioms the evaluator does not model (UNDECIDED).
 """
@@ -70,6 +74,18 @@ def check(ctx):
                "new parent chain) is rejected for EVERY element before the first relation write; a children assignment that fails midway "
                "leaves dropped tasks that still report the WBS, and re-attaching those skips the id check", floor=3)
     ctx.guarded(o, lambda o: children_atomic(ctx, o, eff))
+
+    o = ctx.ob('parent_assignment_atomic', 'R3',
+               "parent setter: the task itself, a descendant or a dependency-linked task as new parent is rejected before ANY relation or "
+               "owner write (unlink, _attach, parent store): a move refused midway leaves a detached task flagged as attached (its next "
+               "attach skips the id check) or an attached task outside the tree", floor=3)
+    ctx.guarded(o, lambda o: parent_atomic(ctx, o, eff))
+
+    o = ctx.ob('shared_child_list', 'R1',
+               "one child list object per task, shared with every children facade (shared rule with C11): a facade that rebinds its list "
+               "leaves stale views whose later move/sort publishes an outdated list as the children of the task - tasks re-enter the tree "
+               "without any id check", floor=4)
+    ctx.guarded(o, lambda o: __import__('rules.c05_util', fromlist=['shared_list']).shared_list(ctx, o))
 
     o = ctx.ob('receiving_tree_scope', 'R8',
                "the receiving tree is the whole WBS: _find_root returns the WBS root task of an attached task (task.wbs._root()), and "
@@ -159,6 +175,25 @@ def children_atomic(ctx, o, eff):
                      ("the task is a descendant of a new child", A('desc(self,elem)')),
                      ("a dependency links a new child's subtree with the task or its ancestors", A('call:_has_dependency_with_parents(elem,self)'))):
         T.require(ctx, o, f, label, R, writes, eff, True)
+
+
+def parent_atomic(ctx, o, eff):
+    A, N, AND = T.F_atom, T.F_not, T.F_and
+    f = ctx.prog.func(SETTERS['parent'])
+    writes = relation_write_nodes(ctx, f, eff)
+    for label, R in (("the new parent is the task itself", AND(N(A('none(arg)')), A('same(arg,self)'))),
+                     ("the new parent is a descendant of the task", AND(N(A('none(arg)')), A('desc(arg,self)'))),
+                     ("a dependency links the moved subtree with the new parent or its ancestors",
+                      AND(N(A('none(arg)')), A('call:_has_dependency_with_parents(self,arg)')))):
+        T.require(ctx, o, f, label, R, writes, eff, False)
+    # no rejection of its own after the first write
+    cfg = cfg_of(f)
+    for r in [n for n in walk_no_nested(f.node) if isinstance(n, ast.Raise)]:
+        rn = cfg.node_of(r)
+        first = next((w for w in writes if rn is not None and cfg.can_reach(w[0], rn)), None)
+        if first is not None:
+            o.refute(f, r, r, f"the parent setter can still raise (`{src(r)[:50]}`) after `{src(first[1])[:50]}` has changed relation state: "
+                              f"the refused move is left half-done")
 
 
 def scope(ctx, o):
@@ -472,18 +507,4 @@ def lookup(ctx, o):
     h = prog.func('task.Task.__get_all_children')
     if c05_util.flat_list_cache(ctx, o) is not None:
         return
-    gen = next((x for x in prog.all_funcs() if x.parent is h), None)
-    if gen is None:
-        o.undecided(h, h.node, 'all_children', "no nested generator")
-        return
-    t = gen.params[0]
-    for lp in [n for n in walk_no_nested(gen.node) if isinstance(n, ast.For)]:
-        if match(f"{t}._Task__children", lp.iter):
-            b = lp.body
-            if len(b) == 2 and isinstance(b[0], ast.Expr) and isinstance(b[0].value, ast.Yield) and \
-                    isinstance(b[1], ast.Expr) and isinstance(b[1].value, ast.YieldFrom):
-                o.site(gen, lp, "pre-order: child, then its subtree, siblings in list order")
-            else:
-                o.refute(gen, lp, lp, "all_children is not pre-order depth first in list order")
-        elif isinstance(lp.iter, ast.Call):
-            o.refute(gen, lp, lp.iter, f"children are enumerated through `{src(lp.iter)[:40]}`, not in list order")
+    c05_util.check_enumeration(ctx, o, h)
